@@ -1,4 +1,4 @@
 #!/bin/sh
 HERE="$(cd "$(dirname "$0")" && pwd)"
 export CARGO_NET_OFFLINE=true
-cd "$HERE/sim" && cp /repo/Cargo.lock Cargo.lock && cargo build --release --offline
+cd "$HERE/sim" && cargo build --release --offline
